@@ -14,8 +14,8 @@
    functions by definition). *)
 From Coq Require Import List NArith Bool.
 From Mdns Require Import Bytes Rec ParamsRegistry Names WireOut Registry RegistryDaemon RegistrySpec
-     RegistryParamsPinned RegistryProofs RegistryDaemonProofs RegistryLiftProofs RegistryHistoryProofs RegistryWitnesses
-     RegistryWitnessProofs.
+     RegistryTrace RegistryParamsPinned RegistryProofs RegistryDaemonProofs RegistryLiftProofs RegistryHistoryProofs
+     RegistrySilenceProofs RegistryLivenessProofs RegistryWitnesses RegistryWitnessProofs.
 Import ListNotations.
 Open Scope N_scope.
 
@@ -227,13 +227,50 @@ Example C07_second_announcement_queue_example :
   queue_times (state_after w_added_twice_ifs w_added_twice_its 5) = [].
 Proof. exact w_added_twice_queue. Qed.
 
-(* NOT proved over histories (partial): that the second announcement is actually SENT (it is when the
-   service is still registered, the interface and its registry still exist and the records are still
-   active - register_resend re-runs the announcement attempt); "no response speaks for a unique
-   record whose owner has not been probed three times since the interface (re)appeared" and "every
+(* ---- round 5: the second announcement is SENT ---------------------------------------------------------------
+   announceable s itf rg v4 = the announcement attempt for that family succeeds: s has an address on
+   the interface in that family and needs no probing or all its records there are active;
+   announcement_of s itf rg v4 = the message (PTRs, SRV, TXT, addresses under the current names);
+   resend_ready st full i s itf rg = the service is still registered under that key, interface i still
+   exists and still has its registry. *)
+
+(* the queue entry stays where it is until it is due (every state, every iteration that leaves the
+   daemon running: datagrams incl. responses, any calls but shutdown) ... *)
+Theorem C07_second_announcement_stays_queued : forall st it st' os js e,
+  iterate st it = (st', os, Running, js) -> In e (d_retrans st) -> it_now it < fst e -> In e (d_retrans st').
+Proof. exact queue_entry_persists. Qed.
+
+(* ... and when it is due - whatever else is due before it in the same pass - the announcement is sent
+   on its interface for every family in which the service is still announceable *)
+Theorem C07_due_second_announcement_sent_partial : forall st now js t full i s itf rg v4,
+  In (t, RegisterResend full i) (d_retrans st) -> t <= now ->
+  resend_ready st full i s itf rg -> announceable s itf rg v4 ->
+  In (OSend i v4 Mcast (announcement_of s itf rg v4)) (snd (fst (retransmit st now js))).
+Proof. exact due_second_announcement_sent. Qed.
+
+Theorem C07_announcement_of_is_an_announcement : forall s itf rg v4, is_announcement (announcement_of s itf rg v4) = true.
+Proof. exact announcement_of_is_announcement. Qed.
+
+(* `_partial`: that the service IS still announceable 1000 ms after its first announcement is a
+   hypothesis here.  It holds when nothing happened to the service, the interface and the active
+   records in between; it fails by design after an unregister, a removed interface, a conflict that
+   took the records out of the active set.  Composition with C07_*_queues_second_announcement,
+   C07_second_announcement_stays_queued and C07_no_overdue_queue_entry: the entry queued at T for
+   T + 1000 is still queued at the first iteration with now >= T + 1000, is run in it, and sends the
+   announcement if the service is still announceable then. *)
+Example C07_second_announcement_sent_example :
+  sends_announcement (outs_of w_exact_ifs w_exact_its 4) = true /\
+  queue_times (state_after w_exact_ifs w_exact_its 5) = [1001895] /\
+  option_map it_now (nth_error w_exact_its 5) = Some 1001895 /\
+  sends_announcement (outs_of w_exact_ifs w_exact_its 5) = true /\
+  queue_times (state_after w_exact_ifs w_exact_its 6) = [].
+Proof. exact w_exact_second_sent. Qed.
+
+(* NOT proved over histories (partial): "no response speaks for a unique record whose owner has not
+   been probed three times since the interface (re)appeared" (outside classes 42/44/48) and "every
    registration reaches Announced in bounded time on never-late schedules" stay at the level of the
-   registry machine (C07_probe_spacing_all_schedules, C07_three_probes_exact, C07_reaches_active_...)
-   and of the executed monitor. *)
+   registry machine (C07_probe_spacing_all_schedules, C07_three_probes_exact,
+   C07_reaches_active_within_a_second) and of the executed monitor; so does chk_C08's clause 29. *)
 
 (* History level, full statement (validated on every generated history by running chk_C07 on the
    model's own observation, NOT proved):
@@ -272,6 +309,10 @@ Print Assumptions C07_added_interface_queues_second_announcement.
 Print Assumptions C07_completed_probe_queues_second_announcement.
 Print Assumptions C07_no_overdue_queue_entry.
 Print Assumptions C07_second_announcement_queue_example.
+Print Assumptions C07_second_announcement_stays_queued.
+Print Assumptions C07_due_second_announcement_sent_partial.
+Print Assumptions C07_announcement_of_is_an_announcement.
+Print Assumptions C07_second_announcement_sent_example.
 Print Assumptions C07_three_probes_on_late_schedules_refuted.
 Print Assumptions C07_record_joining_a_probe_refuted.
 Print Assumptions C07_reprobe_after_host_rename.
